@@ -414,6 +414,10 @@ func EntryPoint(k int, scratch string) string {
 	case 16: // upper-case file name: the switch lower-cases it
 		path = write("POM.XML", pomOK)
 		n, err = fix(options.FixVulnsOptions{Manifest: path}, mvnCl, mvnV)
+	case 17: // a section key spelled with a capital letter: encoding/json reads it, the JSON path of the writer does not find it
+		cap := strings.Replace(strings.Replace(npmOK, "\"dependencies\"", "\"Dependencies\"", 1), "^1.0.0", "1.0.0", 1) // pinned to the vulnerable version
+		path, content = write("package.json", cap), cap
+		n, err = fix(options.FixVulnsOptions{Manifest: path}, npmCl, npmV)
 	default:
 		return "bad-case"
 	}
@@ -433,4 +437,4 @@ func EntryPoint(k int, scratch string) string {
 }
 
 // EntryPointKinds is the number of kinds EntryPoint knows.
-const EntryPointKinds = 17
+const EntryPointKinds = 18
